@@ -81,6 +81,7 @@ func mutexLock(fr *frame, p *value, what string) {
 	}
 	m.locked = true
 	m.owner = g.id
+	race.acquire(g, m)
 }
 
 func mutexUnlock(fr *frame, p *value) {
@@ -89,6 +90,7 @@ func mutexUnlock(fr *frame, p *value) {
 	if !m.locked {
 		panic(targetPanicMsg("fatal error: sync: unlock of unlocked mutex"))
 	}
+	race.release(curG(fr), m)
 	m.locked = false
 }
 
@@ -130,6 +132,7 @@ func initSyncIntrinsics() {
 			sched.block(g, "RWMutex.RLock", func() bool { return !m.locked && m.writersWaiting == 0 }, m)
 		}
 		m.readers++
+		race.acquire(g, m)
 		return nil
 	}
 	e["(*sync.RWMutex).RUnlock"] = func(fr *frame, args []value) value {
@@ -138,6 +141,7 @@ func initSyncIntrinsics() {
 		if m.readers <= 0 {
 			panic(targetPanicMsg("fatal error: sync: RUnlock of unlocked RWMutex"))
 		}
+		race.release(curG(fr), m)
 		m.readers--
 		return nil
 	}
@@ -163,6 +167,7 @@ func initSyncIntrinsics() {
 			syncSt.wg[p] = w
 		}
 		sched.yield(curG(fr), "WaitGroup.Done", commuting{w})
+		race.release(curG(fr), w)
 		w.n--
 		if w.n < 0 {
 			panic(targetPanicMsg("sync: negative WaitGroup counter"))
@@ -183,6 +188,7 @@ func initSyncIntrinsics() {
 		if w.n > 0 {
 			sched.block(g, "WaitGroup.Wait", func() bool { return w.n == 0 }, w)
 		}
+		race.acquire(g, w)
 		return nil
 	}
 	e["(*sync.Once).Do"] = func(fr *frame, args []value) value {
@@ -195,15 +201,17 @@ func initSyncIntrinsics() {
 		g := curG(fr)
 		sched.yield(g, "Once.Do", o)
 		if o.done {
+			race.acquire(g, o)
 			return nil
 		}
 		if o.running {
 			sched.block(g, "Once.Do", func() bool { return o.done }, o)
+			race.acquire(g, o)
 			return nil
 		}
 		o.running = true
 		func() {
-			defer func() { o.done = true; o.running = false }()
+			defer func() { race.release(g, o); o.done = true; o.running = false }()
 			call(fr.i, fr, token.NoPos, args[1], nil)
 		}()
 		return nil
@@ -327,7 +335,13 @@ func atomicTypedMethod(name string) externalFn {
 			panic(targetPanicMsg("runtime error: invalid memory address or nil pointer dereference (atomic)"))
 		}
 		st := (*p).(structure)
-		return &st[len(st)-1]
+		c := &st[len(st)-1]
+		// atomic operations synchronise (sequentially consistent): acquire + release on the cell
+		if race != nil && race.on {
+			race.acquire(sched.cur, c)
+			race.release(sched.cur, c)
+		}
+		return c
 	}
 	isBool := strings.HasPrefix(name, "(*sync/atomic.Bool)")
 	switch meth {
